@@ -22,27 +22,33 @@ EXTENDS Integers, Sequences, FiniteSets, TLC
 CONSTANTS Kinds, MaxLen, FreshResponder
 
 \* resources and what the origin answers for them
-Res == {"A", "B", "C", "D", "E", "F"}
+Res == {"A", "B", "C", "D", "E", "F", "G"}
 Def(r) == CASE r = "A" -> [status |-> 200, hdrs |-> {"content-type", "x-a", "cache-control"}, body |-> "sized", cl |-> TRUE, storable |-> TRUE]
             [] r = "B" -> [status |-> 200, hdrs |-> {"content-type", "x-b", "set-cookie"}, body |-> "chunked", cl |-> FALSE, storable |-> TRUE]
             [] r = "C" -> [status |-> 404, hdrs |-> {"x-err", "content-type"}, body |-> "sized", cl |-> TRUE, storable |-> FALSE]
             [] r = "D" -> [status |-> 201, hdrs |-> {"content-type", "location", "x-d"}, body |-> "sized", cl |-> TRUE, storable |-> FALSE]
             [] r = "E" -> [status |-> 200, hdrs |-> {"content-type", "x-e"}, body |-> "large", cl |-> TRUE, storable |-> TRUE]
             [] r = "F" -> [status |-> 200, hdrs |-> {"content-type", "x-f", "cache-control"}, body |-> "chunked", cl |-> FALSE, storable |-> FALSE]
+            [] r = "G" -> [status |-> 204, hdrs |-> {"x-g"}, body |-> "empty", cl |-> FALSE, storable |-> FALSE]
 \* exchange kinds
-KDef(k) == CASE k = "get_a"   -> [res |-> "A", method |-> "GET",  range |-> "none"]
-             [] k = "get_b"   -> [res |-> "B", method |-> "GET",  range |-> "none"]
-             [] k = "get_c"   -> [res |-> "C", method |-> "GET",  range |-> "none"]
-             [] k = "post_d"  -> [res |-> "D", method |-> "POST", range |-> "none"]
-             [] k = "get_e"   -> [res |-> "E", method |-> "GET",  range |-> "none"]
-             [] k = "get_f"   -> [res |-> "F", method |-> "GET",  range |-> "none"]
-             [] k = "head_a"  -> [res |-> "A", method |-> "HEAD", range |-> "none"]
-             [] k = "head_b"  -> [res |-> "B", method |-> "HEAD", range |-> "none"]
-             [] k = "head_c"  -> [res |-> "C", method |-> "HEAD", range |-> "none"]
-             [] k = "range_a" -> [res |-> "A", method |-> "GET",  range |-> "ok"]
-             [] k = "range_b" -> [res |-> "B", method |-> "GET",  range |-> "ok"]
-             [] k = "bad_a"   -> [res |-> "A", method |-> "GET",  range |-> "bad"]
-AllKinds == {"get_a", "get_b", "get_c", "post_d", "get_e", "get_f", "head_a", "head_b", "head_c", "range_a", "range_b", "bad_a"}
+KDef(k) == CASE k = "get_a"   -> [res |-> "A", method |-> "GET", range |-> "none", rbody |-> "none"]
+             [] k = "get_b"   -> [res |-> "B", method |-> "GET", range |-> "none", rbody |-> "none"]
+             [] k = "get_c"   -> [res |-> "C", method |-> "GET", range |-> "none", rbody |-> "none"]
+             [] k = "post_d"  -> [res |-> "D", method |-> "POST", range |-> "none", rbody |-> "sized"]
+             [] k = "get_e"   -> [res |-> "E", method |-> "GET", range |-> "none", rbody |-> "none"]
+             [] k = "get_f"   -> [res |-> "F", method |-> "GET", range |-> "none", rbody |-> "none"]
+             [] k = "head_a"  -> [res |-> "A", method |-> "HEAD", range |-> "none", rbody |-> "none"]
+             [] k = "head_b"  -> [res |-> "B", method |-> "HEAD", range |-> "none", rbody |-> "none"]
+             [] k = "head_c"  -> [res |-> "C", method |-> "HEAD", range |-> "none", rbody |-> "none"]
+             [] k = "range_a" -> [res |-> "A", method |-> "GET", range |-> "ok", rbody |-> "none"]
+             [] k = "range_b" -> [res |-> "B", method |-> "GET", range |-> "ok", rbody |-> "none"]
+             [] k = "bad_a"   -> [res |-> "A", method |-> "GET", range |-> "bad", rbody |-> "none"]
+             \* a request body the proxy has no use for (GET answered from the store), a large upload, an answer without body
+             [] k = "getbody_a" -> [res |-> "A", method |-> "GET", range |-> "none", rbody |-> "sized"]
+             [] k = "post_big" -> [res |-> "D", method |-> "POST", range |-> "none", rbody |-> "big"]
+             [] k = "get_g"   -> [res |-> "G", method |-> "GET", range |-> "none", rbody |-> "none"]
+AllKinds == {"get_a", "get_b", "get_c", "post_d", "get_e", "get_f", "head_a", "head_b", "head_c", "range_a", "range_b", "bad_a",
+             "getbody_a", "post_big", "get_g"}
 Tracked == UNION {Def(r).hdrs : r \in Res} \cup {"content-range"}
 
 VARIABLES store, resp, out, n
